@@ -99,6 +99,9 @@ GuardPoints == {<<M_UPDATE, ANY>>, <<M_ENTRY_GUARD, ANY>>, <<M_EXIT_GUARD, ANY>>
 \* plans: every plan content, status pattern, outcome
 PlanOps == {O("ctor"), O("update"), O("px")} \cup {Op("pc", o, d, 0) : o \in States, d \in States}
            \cup {Op("succeed", s, 0, 0) : s \in States} \cup {Op("fail", s, 0, 0) : s \in States} \cup {Op("ito", d, 0, 0) : d \in States}
+\* (the thorough configuration MC_plan: three states, the plans restricted to five of the nine tasks so that the run stays within minutes)
+PlanOpsT == {O("ctor"), O("update"), O("px"), Op("pc", 0, 1, 0), Op("pc", 1, 2, 0), Op("pc", 2, 0, 0), Op("pc", 1, 1, 0), Op("pc", 0, 2, 0),
+             Op("succeed", 0, 0, 0), Op("succeed", 1, 0, 0), Op("fail", 1, 0, 0), Op("ito", 1, 0, 0), Op("ito", 2, 0, 0)}
 PlanActs == {A("S", NONE, 0, 0), A("F", NONE, 0, 0), A("X", 0, 0, 0)} \cup {A("S", s, 0, 0) : s \in States}
 PlanPoints == {<<M_UPDATE, ANY>>, <<M_POST_UPDATE, NONE>>, <<M_ENTRY_GUARD, ANY>>}
 PlanOpsQ == {O("ctor"), O("update")} \cup {Op("pc", o, d, 0) : o \in States, d \in States} \cup {Op("succeed", 0, 0, 0), Op("fail", 1, 0, 0), Op("ito", 1, 0, 0)}
